@@ -146,7 +146,8 @@ def runner_steps(src):
             "deref_mut()); self.num_cycles += 1 + self.cpu.get_remaining_cycles() as usize; self.cpu .execute_instruction(self.ram.write()."
             "unwrap().deref_mut()); match opcode { 0x20 => self.call_depth += 1, 0x60 => self.call_depth = self.call_depth.saturating_sub(1), "
             "_ => {} } Ok(ExecuteResult::Running)")
-    if not ex.endswith(tail) or len(re.findall(r"call_depth", src)) != 6:
+    # the two updates above are the only writes (reads, e.g. by cfg(mos_verif) accessors, do not matter)
+    if not ex.endswith(tail) or len(re.findall(r"call_depth\s*(?:\+=|-=|=(?!=))", src)) != 2:
         raise ShapeError("TestRunner::execute_instruction: call_depth is not maintained the way model/DapStep.v (call_depth) mirrors")
 
 
